@@ -42,6 +42,13 @@ type cgCtx struct {
 	isAsync bool     // started with `go`
 	key     string   // stable identity across rebuilds: chain of call sites
 	alts    []*cgCtx // further possible callees of the same call site (table of function values, phi of functions)
+
+	// rows of a literal table of structs walked by a loop of this function: the calls in the loop body are
+	// expanded once per row, their arguments evaluated in a per-row VIEW of this context
+	real   *cgCtx                            // for a row view: the context it is a view of
+	rowOf  map[ssa.Value]int                 // row view: element value / address -> row index
+	rowTab map[ssa.Value][]map[int]ssa.Value // element value / address -> per row: field index -> stored value
+	views  map[ssa.Value][]*cgCtx            // real context: element value -> its row views
 }
 
 // CV is an SSA value in a context.
@@ -89,6 +96,7 @@ type cGraph struct {
 	domBuilt    bool
 
 	fieldStoreCount map[FieldID]int
+	addrKept        map[string]bool   // objects whose (sub-)address is stored in memory
 	hints           map[string]CV     // unexpanded dynamic call (ctx key | instr) -> function value found by the memory model (previous build)
 	byKey           map[string]*cgCtx // contexts of this build by key
 }
@@ -185,7 +193,7 @@ func (g *cGraph) hinted(c *cgCtx, in ssa.Instruction) (CV, bool) {
 }
 
 func (g *cGraph) newCtx(parent *cgCtx, site ssa.CallInstruction, fn *ssa.Function, args, binds []CV) *cgCtx {
-	c := &cgCtx{parent: parent, site: site, fn: fn, nodes: map[*ssa.BasicBlock][]*cgNode{}, kids: map[ssa.Instruction]*cgCtx{}, args: args, binds: binds, id: len(g.ctxs)}
+	c := &cgCtx{parent: parent, site: site, fn: fn, nodes: map[*ssa.BasicBlock][]*cgNode{}, kids: map[ssa.Instruction]*cgCtx{}, args: args, binds: binds, id: len(g.ctxs), views: map[ssa.Value][]*cgCtx{}}
 	if parent != nil {
 		c.depth = parent.depth + 1
 		c.key = fmt.Sprintf("%s/%p", parent.key, site)
@@ -330,8 +338,32 @@ func (g *cGraph) expand(c *cgCtx) {
 				continue
 			}
 			var tgts []cgTarget
+			var rowViews []*cgCtx
 			if fn, args, binds, ok := g.target(c, ci); ok {
 				tgts = []cgTarget{{fn, args, binds}}
+				// arguments taken from a row of a literal table walked by a loop: one expansion per row
+				var elem ssa.Value
+				for _, a := range ci.Common().Args {
+					if e := rowElemIn(a, 0); e != nil {
+						elem = e
+					}
+				}
+				if elem != nil && c.real == nil {
+					if views := g.rowViews(c, elem); len(views) > 1 {
+						tgts = nil
+						for _, view := range views {
+							var vargs []CV
+							for _, a := range args {
+								if a.C == c {
+									a = CV{view, a.V}
+								}
+								vargs = append(vargs, a)
+							}
+							tgts = append(tgts, cgTarget{fn, vargs, binds})
+						}
+						rowViews = views
+					}
+				}
 			} else {
 				tgts = g.tableTargets(c, ci)
 			}
@@ -359,6 +391,9 @@ func (g *cGraph) expand(c *cgCtx) {
 					kid = k
 				} else {
 					kid.alts = append(kid.alts, k)
+				}
+				if rowViews != nil {
+					rowViews[ti].kids[in] = k // seen from row ti, this call is exactly that expansion
 				}
 			}
 			n.kid = kid
@@ -575,9 +610,39 @@ func (g *cGraph) res(cv CV) CV {
 			cv = cv.C.binds[k]
 		case *ssa.ChangeType:
 			cv = CV{cv.C, v.X}
+		case *ssa.Field:
+			// a field of the table row this view stands for
+			if cv.C == nil || cv.C.rowOf == nil {
+				return cv
+			}
+			k, ok := cv.C.rowOf[v.X]
+			if !ok {
+				return cv
+			}
+			val, ok := cv.C.rowTab[v.X][k][v.Field]
+			if !ok {
+				return cv // field left at its zero value
+			}
+			cv = CV{cv.C, val}
+		case *ssa.Alloc, *ssa.Global, *ssa.Const, *ssa.Function, *ssa.MakeSlice:
+			if cv.C != nil && cv.C.real != nil {
+				return CV{cv.C.real, cv.V} // objects are the same in every row view
+			}
+			return cv
 		case *ssa.UnOp:
 			if v.Op != token.MUL {
 				return cv
+			}
+			if cv.C != nil && cv.C.rowOf != nil {
+				if fa, ok := v.X.(*ssa.FieldAddr); ok {
+					if k, ok := cv.C.rowOf[fa.X]; ok {
+						if val, ok := cv.C.rowTab[fa.X][k][fa.Field]; ok {
+							cv = CV{cv.C, val}
+							continue
+						}
+						return cv
+					}
+				}
 			}
 			a := g.res(CV{cv.C, v.X})
 			if fa, isFA := a.V.(*ssa.FieldAddr); isFA {
@@ -705,13 +770,13 @@ func (g *cGraph) phiEdges(cv CV) ([]cgEdge, bool) {
 		if kid == nil {
 			return nil, false
 		}
-		return g.retEdges(kid, v.Index), true
+		return g.retEdgesFor(cv.C, kid, v.Index), true
 	case *ssa.Call:
 		kid := g.inlinedCall(cv)
 		if kid == nil || v.Call.Signature().Results().Len() != 1 {
 			return nil, false
 		}
-		return g.retEdges(kid, 0), true
+		return g.retEdgesFor(cv.C, kid, 0), true
 	}
 	return nil, false
 }
@@ -727,6 +792,21 @@ func (g *cGraph) retEdges(kid *cgCtx, idx int) []cgEdge {
 		}
 	}
 	return out
+}
+
+// retEdgesFor: seen from a row view the call is exactly one expansion; from the plain context all of them.
+func (g *cGraph) retEdgesFor(from *cgCtx, kid *cgCtx, idx int) []cgEdge {
+	if from != nil && from.real != nil {
+		var out []cgEdge
+		for _, rn := range kid.rets {
+			ret := rn.last().(*ssa.Return)
+			if idx < len(ret.Results) {
+				out = append(out, cgEdge{CV{kid, ret.Results[idx]}, rn})
+			}
+		}
+		return out
+	}
+	return g.retEdges(kid, idx)
 }
 
 type cgTarget struct {
@@ -1035,32 +1115,292 @@ func (g *cGraph) buildMem() {
 	g.fieldStores = map[cgFieldKey][]CV{}
 	g.tfStores = map[FieldID][]CV{}
 	g.pathStores = map[string][]CV{}
+	g.addrKept = map[string]bool{}
 	for _, n := range g.nodes {
 		for _, in := range n.instrs() {
 			st, ok := in.(*ssa.Store)
 			if !ok {
 				continue
 			}
-			val := CV{n.C, st.Val}
-			addr := g.res(CV{n.C, st.Addr})
-			switch a := addr.V.(type) {
-			case *ssa.Alloc:
-				g.cellStores[addr] = append(g.cellStores[addr], val)
-			case *ssa.FieldAddr:
-				base := g.res(CV{addr.C, a.X})
-				if k, _, ok := g.memKey(addr); ok {
-					g.pathStores[k] = append(g.pathStores[k], val)
+			// the address of a local object kept in memory (a table of destination pointers …): later stores
+			// may go through it, so flow-sensitive reasoning about that object is off
+			if pv := g.res(CV{n.C, st.Val}); true {
+				if _, isPtr := pv.V.Type().Underlying().(*types.Pointer); isPtr {
+					if _, o, ok := g.memKey(pv); ok {
+						g.addrKept[cvKey(o)] = true
+					}
 				}
-				if _, isAlloc := base.V.(*ssa.Alloc); isAlloc {
-					k := cgFieldKey{base, a.Field}
-					g.fieldStores[k] = append(g.fieldStores[k], val)
-				} else {
-					id := fieldIDOfAddr(a)
-					g.tfStores[id] = append(g.tfStores[id], val)
+			}
+			// a store through a field of a table row (`*d.dst = v` in a loop over a literal table): once per row
+			if ev := rowElemIn(st.Addr, 0); ev != nil && len(n.C.views[ev]) > 0 {
+				for _, view := range n.C.views[ev] {
+					g.regStore(g.res(CV{view, st.Addr}), CV{view, st.Val})
+				}
+				continue
+			}
+			g.regStore(g.res(CV{n.C, st.Addr}), CV{n.C, st.Val})
+		}
+	}
+}
+
+func (g *cGraph) regStore(addr, val CV) {
+	switch a := addr.V.(type) {
+	case *ssa.Alloc:
+		g.cellStores[addr] = append(g.cellStores[addr], val)
+	case *ssa.FieldAddr:
+		base := g.res(CV{addr.C, a.X})
+		if k, _, ok := g.memKey(addr); ok {
+			g.pathStores[k] = append(g.pathStores[k], val)
+		}
+		if _, isAlloc := base.V.(*ssa.Alloc); isAlloc {
+			k := cgFieldKey{base, a.Field}
+			g.fieldStores[k] = append(g.fieldStores[k], val)
+		} else {
+			id := fieldIDOfAddr(a)
+			g.tfStores[id] = append(g.tfStores[id], val)
+		}
+	}
+}
+
+// rowElemIn: v is computed from an element of a table indexed by a variable (d := table[i]; d.f / table[i].f):
+// returns that element value (the load of &table[i]) or address.
+func rowElemIn(v ssa.Value, d int) ssa.Value {
+	if d > 6 || v == nil {
+		return nil
+	}
+	switch x := v.(type) {
+	case *ssa.UnOp:
+		if x.Op == token.MUL {
+			if ia, ok := x.X.(*ssa.IndexAddr); ok {
+				if _, isK := ia.Index.(*ssa.Const); !isK {
+					return x
+				}
+			}
+			return rowElemIn(x.X, d+1)
+		}
+	case *ssa.Field:
+		return rowElemIn(x.X, d+1)
+	case *ssa.FieldAddr:
+		if ia, ok := x.X.(*ssa.IndexAddr); ok {
+			if _, isK := ia.Index.(*ssa.Const); !isK {
+				return ia
+			}
+		}
+		return rowElemIn(x.X, d+1)
+	case *ssa.Alloc:
+		// the loop variable: a local copy of the element (for _, d := range table)
+		if e := rowCopyOf(x); e != nil {
+			return e
+		}
+	case *ssa.Convert:
+		return rowElemIn(x.X, d+1)
+	case *ssa.ChangeType:
+		return rowElemIn(x.X, d+1)
+	case *ssa.MakeInterface:
+		return rowElemIn(x.X, d+1)
+	case *ssa.Slice:
+		return rowElemIn(x.X, d+1)
+	}
+	return nil
+}
+
+// rowCopyOf: a is a local that is only ever assigned a table element indexed by a variable; returns that element load.
+func rowCopyOf(a *ssa.Alloc) ssa.Value {
+	var elem ssa.Value
+	for _, u := range refs(a) {
+		st, ok := u.(*ssa.Store)
+		if !ok || st.Addr != ssa.Value(a) {
+			continue
+		}
+		ld, ok := st.Val.(*ssa.UnOp)
+		if !ok || ld.Op != token.MUL {
+			return nil
+		}
+		ia, ok := ld.X.(*ssa.IndexAddr)
+		if !ok {
+			return nil
+		}
+		if _, isK := ia.Index.(*ssa.Const); isK {
+			return nil
+		}
+		if elem != nil && elem != ssa.Value(ld) {
+			return nil
+		}
+		elem = ld
+	}
+	return elem
+}
+
+// structRows: elem is an element (value or address) of a local literal table of structs; returns, per row, the
+// values stored into its fields by the literal.
+func structRows(elem ssa.Value) ([]map[int]ssa.Value, bool) {
+	var ia *ssa.IndexAddr
+	switch x := elem.(type) {
+	case *ssa.UnOp:
+		ia, _ = x.X.(*ssa.IndexAddr)
+	case *ssa.IndexAddr:
+		ia = x
+	}
+	if ia == nil {
+		return nil, false
+	}
+	base := ia.X
+	if sl, ok := base.(*ssa.Slice); ok && sl.Low == nil && sl.High == nil {
+		base = sl.X
+	}
+	al, ok := base.(*ssa.Alloc)
+	if !ok {
+		return nil, false
+	}
+	arr, ok := deref(al.Type()).Underlying().(*types.Array)
+	if !ok || arr.Len() < 1 || arr.Len() > 8 {
+		return nil, false
+	}
+	if _, isStruct := arr.Elem().Underlying().(*types.Struct); !isStruct {
+		return nil, false
+	}
+	rows := make([]map[int]ssa.Value, arr.Len())
+	for i := range rows {
+		rows[i] = map[int]ssa.Value{}
+	}
+	// an array variable initialised by copying a literal built in a temporary: read the rows from the temporary
+	for _, u := range refs(al) {
+		if st, ok := u.(*ssa.Store); ok && st.Addr == ssa.Value(al) {
+			ld, ok := st.Val.(*ssa.UnOp)
+			if !ok || ld.Op != token.MUL {
+				return nil, false
+			}
+			lit, ok := ld.X.(*ssa.Alloc)
+			if !ok || lit == al {
+				return nil, false
+			}
+			// exactly this one assignment, no element writes on the variable itself
+			for _, u2 := range refs(al) {
+				switch y2 := u2.(type) {
+				case *ssa.Store:
+					if y2 != st {
+						return nil, false
+					}
+				case *ssa.IndexAddr:
+					if _, isK := y2.Index.(*ssa.Const); isK {
+						return nil, false
+					}
+					for _, w := range refs(y2) {
+						if _, isSt := w.(*ssa.Store); isSt {
+							return nil, false
+						}
+					}
+				}
+			}
+			return structRows(&ssa.IndexAddr{X: lit})
+		}
+	}
+	for _, u := range refs(al) {
+		switch y := u.(type) {
+		case *ssa.IndexAddr:
+			k, isK := c01ConstInt(y.Index)
+			if !isK {
+				continue // the loop's read
+			}
+			if k < 0 || k >= arr.Len() {
+				return nil, false
+			}
+			fill := func(base ssa.Value) bool {
+				for _, w := range refs(base) {
+					switch z := w.(type) {
+					case *ssa.FieldAddr:
+						for _, q := range refs(z) {
+							if st, ok := q.(*ssa.Store); ok && st.Addr == ssa.Value(z) {
+								if _, dup := rows[k][z.Field]; dup {
+									return false
+								}
+								rows[k][z.Field] = st.Val
+							}
+						}
+					case *ssa.Store:
+						// table[k] = T{...}: the literal is built in a local and copied in
+						if z.Addr != base {
+							return false
+						}
+						ld, ok := z.Val.(*ssa.UnOp)
+						if !ok || ld.Op != token.MUL {
+							return false
+						}
+						lit, ok := ld.X.(*ssa.Alloc)
+						if !ok {
+							return false
+						}
+						for _, w2 := range refs(lit) {
+							switch z2 := w2.(type) {
+							case *ssa.FieldAddr:
+								for _, q := range refs(z2) {
+									if st, ok := q.(*ssa.Store); ok && st.Addr == ssa.Value(z2) {
+										if _, dup := rows[k][z2.Field]; dup {
+											return false
+										}
+										rows[k][z2.Field] = st.Val
+									}
+								}
+							case *ssa.UnOp, *ssa.DebugRef:
+							default:
+								return false
+							}
+						}
+					case *ssa.UnOp, *ssa.DebugRef:
+					default:
+						return false
+					}
+				}
+				return true
+			}
+			if !fill(y) {
+				return nil, false
+			}
+		case *ssa.Slice, *ssa.DebugRef, *ssa.UnOp:
+		default:
+			return nil, false
+		}
+	}
+	return rows, true
+}
+
+// rowViews returns (creating them on first use) the per-row views of context c for table element elem.
+func (g *cGraph) rowViews(c *cgCtx, elem ssa.Value) []*cgCtx {
+	if vs, ok := c.views[elem]; ok {
+		return vs
+	}
+	rows, ok := structRows(elem)
+	if !ok {
+		c.views[elem] = nil
+		return nil
+	}
+	var out []*cgCtx
+	for k := range rows {
+		v := &cgCtx{parent: c.parent, site: c.site, fn: c.fn, depth: c.depth, nodes: c.nodes, rets: c.rets,
+			kids: map[ssa.Instruction]*cgCtx{}, args: c.args, binds: c.binds, id: len(g.ctxs),
+			key: fmt.Sprintf("%s@%p#%d", c.key, elem, k), real: c,
+			rowOf: map[ssa.Value]int{elem: k}, rowTab: map[ssa.Value][]map[int]ssa.Value{elem: rows}, views: map[ssa.Value][]*cgCtx{}}
+		// the element's address form, and local copies of the element (the range variable), too
+		if u, isLoad := elem.(*ssa.UnOp); isLoad {
+			v.rowOf[u.X] = k
+			v.rowTab[u.X] = rows
+			for _, ref := range refs(u) {
+				if st, ok := ref.(*ssa.Store); ok && st.Val == ssa.Value(u) {
+					if a, ok := st.Addr.(*ssa.Alloc); ok && rowCopyOf(a) == elem {
+						v.rowOf[a] = k
+						v.rowTab[a] = rows
+					}
 				}
 			}
 		}
+		g.ctxs = append(g.ctxs, v)
+		if g.byKey != nil {
+			g.byKey[v.key] = v
+		}
+		out = append(out, v)
 	}
+	c.views[elem] = out
+	return out
 }
 
 // loadVals: the values a load / field selection may yield; ok=false when the
@@ -1476,6 +1816,10 @@ func (g *cGraph) valuesAt(cv CV) ([]cgLeaf, bool) {
 // prune assignments of a contradicting constant (for !state.done { … state.done = true … }).
 func (g *cGraph) valuesAtLoc(key string, obj CV, start *cgNode, idx int) ([]cgLeaf, bool) {
 	objKey := cvKey(obj)
+	g.buildMem()
+	if g.addrKept[objKey] {
+		return nil, false // stores may reach the object through a pointer kept in memory
+	}
 	type def struct {
 		n    *cgNode
 		i    int
